@@ -19,7 +19,7 @@ def budget(tier):
 
 def gen(rng, index, tier):
     nmax = 7 if tier == "quick" else 11
-    raw, meta = lib.gen_dataset(rng, nmax=nmax, mmax=5 if tier == "quick" else 7, big=0.03)
+    raw, meta = lib.gen_dataset(rng, nmax=nmax, mmax=5 if tier == "quick" else 7, big=0.03, big_nmax=130)
     elems = lib.dataset_elems(raw)
     n = len(elems) + 2
     sch = lib.gen_scheme(rng, max_pairs=len(raw) * n * (n - 1) // 2 + 1)
@@ -56,12 +56,31 @@ def fixed_cases(tier):
                     for sch in c02.SMALL_SCHEMES[:2]:
                         cases.append({"dataset": raw, "scheme": sch, "candidate": cand,
                                       "meta": {"family": "exhaustive-small", "kind": "int", "cand_mode": mode}})
+    # sizes at which 32-bit counters overflow (products of bucket sizes >= 2^31): 3 000 elements always, 100 000 in the
+    # thorough tier (the Lean model needs ~4 minutes there); every penalty that weighs missing elements is non-zero
+    heavy = {"b": [0, 2, 2, 1, 2, 3], "t": [2, 2, 0, 1, 1, 5], "scale": 2, "family": "grid"}
+    for n in ([3000, 100000] if tier == "thorough" else [3000]):
+        cases.append({"huge": n, "dataset": [], "candidate": [], "scheme": heavy,
+                      "meta": {"family": "huge", "kind": "int", "cand_mode": "exact"}})
     return cases
+
+
+def _expand(case):
+    """a `huge` case is stored compactly: N elements, candidate = two buckets of N/2, rankings that rank two elements"""
+    if not case.get("huge"):
+        return case
+    n = case["huge"]
+    half = n // 2
+    c = dict(case)
+    c["dataset"] = [[[0], [half]], [[half + 1, 1]]]
+    c["candidate"] = [list(range(half)), list(range(half, n))]
+    return c
 
 
 def impl(case):
     from corankco.kemeny_score_computation import KemenyComputingFactory, InvalidRankingsForComputingDistance
     coder = lib.Coder()
+    case = _expand(case)
     try:
         ds = lib.make_dataset(case["dataset"])
         sch = lib.make_scheme(case["scheme"])
@@ -112,6 +131,10 @@ def ops(case, out):
     S = lib.scheme_tree(case["scheme"])
     res = [("c01.model", [S, [out["obs"], out["cand"]]])]
     sc = out["score"]
+    if case.get("huge"):
+        # the definition itself is out of reach at this size (quadratic in the number of pairs, evaluated naively): the
+        # model's score stands for it — that is theorem C01_score
+        return res
     if sc is None or isinstance(sc, int):
         res.append(("c01.holds", [S, [out["obs"], [out["cand"], [] if sc is None else [sc]]]]))
     return res
@@ -139,6 +162,10 @@ def judge(case, out, answers):
         if _meaning(mc) != _meaning(out["counts"]):
             diff.append("count vectors differ: model %s impl %s" % (mc, out["counts"]))
     holds = bool(answers[1]) if len(answers) > 1 else False
+    if case.get("huge"):
+        holds = mscore is not None and mscore == out["score"]
+        tags.append("size:huge")
+        case = _expand(case)
     raw = case["dataset"]
     n = len(lib.dataset_elems(raw))
     nontrivial = (len(raw) >= 2 and any(len(b) > 1 for r in raw for b in r)
